@@ -184,3 +184,33 @@ def edges():
 
 def obligations():
     return chains() + hex_values() + edges()
+
+
+def literal_values():
+    """every spelling of a decimal literal denotes the number Color BASIC reads (blanks ignored, sign and exponent sign kept apart)"""
+    def run():
+        from tx import f2
+        from coco.b09 import elements as E
+        res = []
+        bad = []
+        spellings = ["0", "1", "10", "1.5", ".5", "12.", "1E2", "1E+2", "1E-2", "2E-1", "1.5E+3", "1.5E-3", "2 E - 1", "1 .5", "007", "1E0", "9.99E-5", "65535", "0.0001234567"]
+        for s in spellings:
+            for sign in ("", "-", "+"):
+                src = sign + s
+                try:
+                    lit, _ = f2.build("num_literal", src, operand_rules={})
+                except Exception as e:  # noqa  (refused spellings are C08/C15's business)
+                    continue
+                want = float(src.replace(" ", ""))
+                if not isinstance(lit, E.BasicLiteral) or lit.literal != want or lit.basic09_text(0) != repr(want):
+                    bad.append((src, getattr(lit, "literal", lit), want))
+        res.append(ob("literal/decimal spellings denote their value", not bad, "value == the numeral's value", bad[:4] or "%d spellings x 3 signs" % len(spellings)))
+        return res
+    return guarded("literal", run)
+
+
+_c01_base = obligations
+
+
+def obligations():  # noqa: F811
+    return _c01_base() + literal_values()
